@@ -15,7 +15,10 @@ RULE = ("random walks (<= 60 steps quick / <= 240 thorough) over a pool of <= 6 
         "curves, toy curves with 2-torsion (K1) and named curves; 23 public operations (reads, scale, to_affine, "
         "from_affine, -, double, +, *, mul_add, ==, pickle round trip, copy.copy, key construction, key.precompute lazy/eager, "
         "to_string x4, verify, sign, key ==); exhaustive sequences of length <= 3 over 8 operations on the prime-order toy "
-        "curve p=11; object turnover (keys / generator-flagged points created, used and dropped in a loop so that addresses are "
+        "curve p=11; pools also hold user-made twins of a point with the same Z and unreduced / negative coordinates and objects on "
+        "equal-but-distinct curve objects (CurveFp without cofactor, pickled CurveFp) with ==, !=, `in`, +, mul_add, key == across "
+        "them; every new point object must carry the declared order of the point(s) it was computed from (PointJacobi "
+        "arithmetic, to_affine, from_affine, copies, a key's point); object turnover (keys / generator-flagged points created, used and dropped in a loop so that addresses are "
         "re-used); distinct = distinct history line; non-trivial = the history mutates hidden state at least once")
 EXTRA_PROPS = ["C19g"]   # RepIndep discharged for Model/Curve.lean from C06/C07 (Proofs/GroupInterface.lean)
 ASSUMPTIONS = [
@@ -77,6 +80,11 @@ class Walk:
             p2, a2, b2 = hist["curve2"]
             self.cvs.append((p2, a2 % p2, b2 % p2))
             self.fps.append(E.CurveFp(p2, a2, b2, 1))
+        # equal-but-distinct curve OBJECTS of the walk's curve: declared by a user without the cofactor ("h0"), and a pickled
+        # copy ("hp").  Points on them are points of the same curve (CurveFp.__eq__ compares p, a, b): same value semantics.
+        self.alt = {"h0": E.CurveFp(p, a, b), "hp": pickle.loads(pickle.dumps(self.fp))}
+        self.ords = []       # per pool object: declared order of a point object (None for others)
+        self.kord = {}       # per key pool index: declared order of the point the key was built from
         self.kinfo = {}      # per key / signing-key pool index: value G and declared order n of its generator, its curve
         self.curveobjs = {}  # generator object id -> curves.Curve built around it
         self.tags = []       # per pool object: 0 = the walk's curve, 1 = the second curve, None = not a point
@@ -107,17 +115,34 @@ class Walk:
             return None
         return (int(obj.x()), int(obj.y()))
 
-    def ref_tok(self, obj, val, tag=None):
-        """classify a returned object against the pool; register new ones with their reference value"""
+    def ref_tok(self, obj, val, tag=None, orders=None):
+        """classify a returned object against the pool; register new ones with their reference value.  `orders`: the
+        declared orders the new point object may carry (those of the point operands it was computed from)"""
         if obj is self.E.INFINITY:
             return "inf"
         i = self.name_of(obj)
         if i is not None:
             return "@%d" % i
+        o = None
+        if val[0] == "pt" and isinstance(obj, (self.E.PointJacobi, self.E.Point)):
+            o = obj.order()
+            o = None if o is None else int(o)
+            if orders is not None and o not in orders:
+                self.fail("the result does not carry the declared order of the point(s) it was computed from",
+                          got=str(o), expected=str(sorted(orders, key=lambda t: (t is None, t or 0))))
         self.pool.append(obj)
         self.vals.append(val)
         self.tags.append(tag if val[0] == "pt" else None)
+        self.ords.append(o)
         return "+%d" % (len(self.pool) - 1)
+
+    def ordset(self, *ts):
+        """declared orders of the point operands, if a PointJacobi is among them (the order attribute of the results of
+        legacy Point arithmetic is not judged: Point.__neg__/__add__ never passed it on)"""
+        ks = [self.kind(t) for t in ts]
+        if "J" not in ks:
+            return None
+        return set(self.ords[t] for t, k in zip(ts, ks) if k in ("J", "A"))
 
     def tag(self, t):
         """curve of an operand: 0/1, or None for an identity (INFINITY or a copy of it)"""
@@ -152,15 +177,17 @@ class Walk:
         E = self.E
         tg = 1 if spec[-1] == "c2" else 0
         suffix = ",%d,%d,%d" % tuple(self.hist["curve2"]) if tg else ""
+        fp = self.alt[spec[-1]] if spec[-1] in ("h0", "hp") else self.fps[tg]
+        self.ords.append(spec[4] if spec[0] == "J" else spec[3])
         if spec[0] == "J":
             _, x, y, z, o, g = spec[:6]
-            obj = E.PointJacobi(self.fps[tg], x, y, z, o, bool(g))
+            obj = E.PointJacobi(fp, x, y, z, o, bool(g))
             self.toks.append("o:J,%d,%d,%d,%s,%d%s" % (x, y, z, ordtok(o), 1 if g else 0, suffix))
             zi = R.inv(z, self.p)
             val = (x * zi * zi % self.p, y * zi * zi * zi % self.p)
         else:
             _, x, y, o = spec[:4]
-            obj = E.Point(self.fps[tg], x, y, o)
+            obj = E.Point(fp, x, y, o)
             self.toks.append("o:A,%d,%d,%s%s" % (x, y, ordtok(o), suffix))
             val = (x, y)
         self.pool.append(obj)
@@ -294,11 +321,11 @@ class Walk:
             want = self.opval(op[1])
             if self.value(r) != want:
                 self.fail("to_affine() differs from the value", op=op, got=self.value(r), expected=want)
-            return self.ref_tok(r, ("pt", want), self.tag(op[1]))
+            return self.ref_tok(r, ("pt", want), self.tag(op[1]), self.ordset(op[1]))
         if o == "fromaff":
             self.toks.append("fromaff:%s:%d" % (self.tok(op[1]), op[2]))
             r = E.PointJacobi.from_affine(self.operand(op[1]), bool(op[2]))
-            return self.ref_tok(r, ("pt", self.opval(op[1])), self.tag(op[1]))
+            return self.ref_tok(r, ("pt", self.opval(op[1])), self.tag(op[1]), {self.ords[op[1]]} if op[1] != "inf" else None)
         if o == "neg":
             self.toks.append("neg:%s" % self.tok(op[1]))
             r = -self.operand(op[1])
@@ -306,7 +333,7 @@ class Walk:
             want = R.neg(cv, self.opval(op[1]))          # the negative of the identity is the identity (fix F12)
             if self.value(r) != want:
                 self.fail("negation differs", op=op, got=self.value(r), expected=want)
-            return self.ref_tok(r, ("pt", want), tg)
+            return self.ref_tok(r, ("pt", want), tg, self.ordset(op[1]))
         if o == "dbl":
             self.toks.append("dbl:%s" % self.tok(op[1]))
             r = self.operand(op[1]).double()
@@ -314,7 +341,7 @@ class Walk:
             want = R.add(cv, self.opval(op[1]), self.opval(op[1]))
             if self.value(r) != want:
                 self.fail("double() differs", op=op, got=self.value(r), expected=want)
-            return self.ref_tok(r, ("pt", want), tg)
+            return self.ref_tok(r, ("pt", want), tg, self.ordset(op[1]))
         if o == "add":
             self.toks.append("add:%s:%s" % (self.tok(op[1]), self.tok(op[2])))
             r = self.operand(op[1]) + self.operand(op[2])
@@ -324,7 +351,7 @@ class Walk:
             want = R.add(cv, self.opval(op[1]), self.opval(op[2]))
             if self.value(r) != want:
                 self.fail("sum differs", op=op, got=self.value(r), expected=want)
-            return self.ref_tok(r, ("pt", want), tg)
+            return self.ref_tok(r, ("pt", want), tg, self.ordset(op[1], op[2]))
         if o == "mul":
             self.toks.append("mul:%s:%d" % (self.tok(op[1]), op[2]))
             r = self.operand(op[1]) * op[2] if op[2] % 2 else op[2] * self.operand(op[1])
@@ -333,7 +360,7 @@ class Walk:
             want = R.mul(cv, self.opval(op[1]), op[2])
             if self.value(r) != want:
                 self.fail("multiple differs", op=op, got=self.value(r), expected=want)
-            return self.ref_tok(r, ("pt", want), tg)
+            return self.ref_tok(r, ("pt", want), tg, self.ordset(op[1]))
         if o == "muladd":
             self.toks.append("muladd:%s:%d:%s:%d" % (self.tok(op[1]), op[2], self.tok(op[3]), op[4]))
             r = self.operand(op[1]).mul_add(op[2], self.operand(op[3]), op[4])
@@ -342,16 +369,18 @@ class Walk:
             want = R.add(cv, R.mul(cv, self.opval(op[1]), op[2]), R.mul(cv, self.opval(op[3]), op[4]))
             if self.value(r) != want:
                 self.fail("mul_add differs", op=op, got=self.value(r), expected=want)
-            return self.ref_tok(r, ("pt", want), tg)
+            # (self_mul = 0: the result is other * other_mul, legacy arithmetic if `other` is a legacy Point)
+            return self.ref_tok(r, ("pt", want), tg, self.ordset(op[3]) if op[2] == 0 else self.ordset(op[1], op[3]))
         if o == "eq":
             self.toks.append("eq:%s:%s" % (self.tok(op[1]), self.tok(op[2])))
             a, b = self.operand(op[1]), self.operand(op[2])
             g = (a == b)
             g2 = not (a != b)
+            g3 = a in [b]                     # list membership goes through == (or identity)
             # equal exactly when the denoted points are equal: both the identity, or the same point of the same curve
             want = self.opval(op[1]) == self.opval(op[2]) and (self.opval(op[1]) is None or self.tag(op[1]) == self.tag(op[2]))
-            if g != want or g2 != want:
-                self.fail("== differs from equality of values", op=op, got=[g, g2], expected=want)
+            if g != want or g2 != want or g3 != want:
+                self.fail("== / != / `in` differ from equality of values", op=op, got=[g, g2, g3], expected=want)
             return "T" if g else "F"
         if o == "pickle":
             self.toks.append("pickle:%s" % self.tok(op[1]))
@@ -374,9 +403,11 @@ class Walk:
             else:
                 if r.to_string() != src.to_string() or r.privkey.secret_multiplier != src.privkey.secret_multiplier:
                     self.fail("unpickled signing key differs", op=op)
-            t = self.ref_tok(r, self.vals[op[1]], self.tag(op[1]))
+            t = self.ref_tok(r, self.vals[op[1]], self.tag(op[1]), {self.ords[op[1]]} if k in ("J", "A") else None)
             if op[1] in self.kinfo:
                 self.kinfo[len(self.pool) - 1] = self.kinfo[op[1]]
+            if op[1] in self.kord:
+                self.kord[len(self.pool) - 1] = self.kord[op[1]]
             return t
         if o == "copy":
             import copy
@@ -389,7 +420,7 @@ class Walk:
                 if not (r == E.INFINITY and E.INFINITY == r):
                     self.fail("copied identity does not equal INFINITY", op=op)
                 return self.ref_tok(r, ("pt", None), None)
-            return self.ref_tok(r, self.vals[op[1]], self.tag(op[1]))
+            return self.ref_tok(r, self.vals[op[1]], self.tag(op[1]), {self.ords[op[1]]} if self.kind(op[1]) in ("J", "A") else None)
         if o == "mkkey":
             from ecdsa.keys import VerifyingKey
             self.toks.append("mkkey:%s:%s" % (self.tok(op[1]), self.tok(op[2])))
@@ -397,13 +428,17 @@ class Walk:
             vk = self._vk(self.operand(op[2]), op[1])
             t = self.ref_tok(vk, ("key", self.opval(op[2])))
             self.kinfo[len(self.pool) - 1] = info
+            if op[2] != "inf" and self.kind(op[2]) in ("J", "A"):
+                self.kord[len(self.pool) - 1] = self.ords[op[2]]
             return t
         if o == "keypoint":
             self.toks.append("keypoint:%s" % self.tok(op[1]))
             pt = self.operand(op[1]).pubkey.point
             if self.value(pt) != self.vals[op[1]][1]:
                 self.fail("key's point has another value", op=op, got=self.value(pt), expected=self.vals[op[1]][1])
-            return self.ref_tok(pt, ("pt", self.vals[op[1]][1]), self.kinfo[op[1]]["tag"])
+            # (the key's point - the object it was given, or its precomputed replacement - keeps the declared order)
+            return self.ref_tok(pt, ("pt", self.vals[op[1]][1]), self.kinfo[op[1]]["tag"],
+                                {self.kord[op[1]]} if op[1] in self.kord else None)
         if o == "keyprecompute":
             self.toks.append("keyprecompute:%s:%d" % (self.tok(op[1]), op[2]))
             self.operand(op[1]).precompute(lazy=bool(op[2]))
@@ -442,6 +477,7 @@ class Walk:
             Q = R.mul(info["cv"], info["G"], op[2])
             t = self.ref_tok(sk, ("skey", Q, op[2]))
             self.kinfo[len(self.pool) - 1] = info
+            self.kord[len(self.pool) - 1] = info["n"]
             return t
         if o == "sksign":
             self.toks.append("sksign:%s:%d:%d" % (self.tok(op[1]), op[2], op[3]))
@@ -463,6 +499,8 @@ class Walk:
             t = self.ref_tok(vk, ("key", self.vals[op[1]][1]))
             if t.startswith("+"):
                 self.kinfo[len(self.pool) - 1] = self.kinfo[op[1]]
+                if op[1] in self.kord:
+                    self.kord[len(self.pool) - 1] = self.kord[op[1]]
             return t
         if o == "raw":
             self.toks.append("raw:%s" % self.tok(op[1]))
@@ -475,7 +513,7 @@ class Walk:
         gobj = self.pool[g]
         if id(gobj) not in self.curveobjs:
             from ecdsa import curves
-            self.curveobjs[id(gobj)] = curves.Curve("walk%d" % g, self.fps[self.tags[g] or 0], gobj, (1, 3, 9999, self.p, g))
+            self.curveobjs[id(gobj)] = curves.Curve("walk%d" % g, gobj.curve(), gobj, (1, 3, 9999, self.p, g))
         return self.curveobjs[id(gobj)]
 
     def ginfo(self, g):
@@ -656,6 +694,28 @@ def init_objects(rng, cvspec, named=None):
         else:
             z = rng.choice([1, 2, 3, p - 1, rng.randrange(1, p)])
             objs.append(["J", P[0] * z * z % p, P[1] * z ** 3 % p, z, None if kind == "pj" else n, 1 if kind == "gen" else 0])
+    if not two_tors:
+        # the same points held by user-made objects that are legal operands but not what the library itself builds:
+        # (a) a twin of a PointJacobi with the SAME Z and unreduced / negative coordinates (x + ip, y + jp): the same point;
+        #     only for Z != 1 (with Z = 1 x() and y() hand the stored numbers out unreduced: representation, not value)
+        # (b) objects on an equal-but-distinct curve OBJECT: CurveFp(p, a, b) declared without the cofactor ("h0"), a pickled
+        #     copy of the walk's CurveFp ("hp") - also a second generator-capable point there, around which keys are built
+        js = [sp for sp in objs[1:] if sp[0] == "J" and sp[3] != 1]
+        if js and rng.random() < 0.5:
+            sp = rng.choice(js)
+            i, j = rng.choice([(1, 0), (0, -1), (1, -1), (2, 1), (-1, 2)])
+            objs.append(["J", sp[1] + i * p, sp[2] + j * p, sp[3], sp[4], 0])
+        if rng.random() < 0.45:
+            for _ in range(rng.randrange(1, 3)):
+                sp = list(rng.choice(objs))
+                if sp[0] == "J":
+                    sp = sp[:6]
+                    if rng.random() < 0.5:                      # another representation of it
+                        z = rng.choice([1, 2, p - 1])
+                        zi = R.inv(sp[3], p)
+                        x0, y0 = sp[1] * zi * zi % p, sp[2] * zi ** 3 % p
+                        sp[1:4] = [x0 * z * z % p, y0 * z ** 3 % p, z]
+                objs.append(sp + [rng.choice(["h0", "h0", "hp"])])
     return objs, G, n
 
 
@@ -669,7 +729,7 @@ def add_foreign(rng, hist):
     sp = rng.choice(cands)
     if sp[0] == "J":
         zi = R.inv(sp[3], p)
-        x0, y0 = sp[1] * zi * zi % p, sp[2] * zi ** 3 % p
+        x0, y0 = sp[1] * zi * zi % p, sp[2] * zi ** 3 % p      # (reduced also for an unreduced twin)
     else:
         x0, y0 = sp[1], sp[2]
     a2, b2 = a + 1, b - x0
@@ -833,6 +893,33 @@ def exhaustive_histories():
             yield {"curve": [p, a, b], "named": None, "n": n, "init": init, "ops": ops}
 
 
+def resolve(hist):
+    """replace operands "$k" (the object returned by operation number k of this history) by pool indices, running the
+    history on the real code; an operation whose referenced result is not an object is replaced by a read"""
+    w = Walk(dict(hist, ops=[]))
+    for spec in hist["init"]:
+        w.make(spec)
+    n0 = len(w.outs)
+    ops = []
+    for op in hist["ops"]:
+        o2, ok = [], True
+        for t in op:
+            if isinstance(t, str) and t.startswith("$"):
+                r = w.outs[n0 + int(t[1:])]
+                if r == "inf":
+                    t = "inf"
+                elif r[:1] in "+@" and r[1:].isdigit():
+                    t = int(r[1:])
+                else:
+                    ok = False
+            o2.append(t)
+        if not ok:
+            o2 = ["x", 0]
+        ops.append(o2)
+        w.do(o2)
+    return dict(hist, ops=ops)
+
+
 def directed_histories():
     """hand-made histories around the hidden state: copies taken before/after the table is built, lazy and eager key
     precomputation followed by use, the generator doubling as a key's point (d = 1)"""
@@ -858,6 +945,45 @@ def directed_histories():
                       ["add", 2, 3], ["add", 3, 2], ["add", 3, 4], ["add", 3, "inf"], ["add", "inf", 3], ["mul", 3, 5], ["dbl", 3], ["muladd", 0, 7, 3, 9],
                       ["eq", 0, 3], ["eq", 3, 1], ["eq", 2, 3], ["x", 3], ["pickle", 3], ["raw", 3], ["eq", 1, 0]]))
         out.append(H([["muladd", 0, 3, 0, 4], ["raw", 0], ["muladd", 1, 2, 1, 3], ["raw", 1], ["muladd", 1, 1, 2, n], ["muladd", 1, n, 1, 1], ["muladd", 0, 1, 1, 0]]))
+    for (p, a, b, G, n) in TOY_PRIME[:3]:
+        cv = (p, a, b)
+        P = R.mul(cv, G, 4)
+        Q = R.mul(cv, G, 5)
+        Pj = [P[0] * 4 % p, P[1] * 8 % p, 2]
+        # -- the declared order survives negation: negate -> from_affine(.., generator=True) -> multiply; a key built from the
+        #    negated point -> precompute (lazy and eager) -> verify, serialise.  ("$k": the object returned by operation k)
+        init = [["J", G[0], G[1], 1, n, 1], ["J", Pj[0], Pj[1], 2, n, 0], ["A", Q[0], Q[1], n]]
+        H = lambda ops: resolve({"curve": [p, a, b], "named": None, "n": n, "init": init, "ops": ops})   # noqa
+        out.append(H([["neg", 1], ["order", "$0"], ["fromaff", "$0", 1], ["mul", "$2", 5], ["raw", "$2"], ["mul", "$2", 2], ["neg", 0], ["mul", "$6", 3],
+                      ["order", "$6"], ["fromaff", "$6", 1], ["mul", "$9", 7], ["muladd", "$9", 3, "$2", 4]]))
+        for lazy in (1, 0):
+            out.append(H([["neg", 1], ["mkkey", 0, "$0"], ["keyprecompute", "$1", lazy], ["keypoint", "$1"], ["order", "$3"], ["keyverify", "$1", 5, 3, 4],
+                          ["raw", "$3"], ["keyser", "$1", 2], ["neg", "$3"], ["mkkey", 0, "$8"], ["keyprecompute", "$9", 1 - lazy],
+                          ["keyverify", "$9", 5, 3, 4], ["keypoint", "$9"], ["order", "$12"]]))
+        out.append(H([["dbl", 1], ["order", "$0"], ["add", 1, 0], ["order", "$2"], ["mul", 1, 3], ["order", "$4"], ["muladd", 1, 2, 0, 3], ["order", "$6"],
+                      ["toaff", 1], ["order", "$8"], ["pickle", 1], ["order", "$10"], ["copy", 0], ["order", "$12"], ["fromaff", 2, 0], ["order", "$14"]]))
+        # -- the same point in user-made objects with the same Z and unreduced / negative coordinates, and scaled twins
+        init = [["J", G[0], G[1], 1, n, 1], ["J", Pj[0], Pj[1], 2, n, 0], ["J", Pj[0] + p, Pj[1] - p, 2, n, 0], ["J", Pj[0] - p, Pj[1] + 2 * p, 2, None, 0],
+                ["J", P[0] * 9 % p, P[1] * 27 % p, 3, n, 0], ["A", P[0], P[1], n]]
+        H = lambda ops: resolve({"curve": [p, a, b], "named": None, "n": n, "init": init, "ops": ops})   # noqa
+        out.append(H([["eq", 1, 2], ["eq", 2, 1], ["eq", 1, 3], ["eq", 2, 3], ["eq", 2, 4], ["eq", 4, 3], ["eq", 2, 5], ["eq", 5, 3], ["raw", 2],
+                      ["x", 2], ["y", 3], ["add", 1, 2], ["add", 2, 3], ["neg", 2], ["eq", "$13", 2], ["add", "$13", 3], ["mul", 2, 5], ["mul", 1, 5],
+                      ["eq", "$16", "$17"], ["muladd", 2, 3, 3, 4], ["mkkey", 0, 2], ["mkkey", 0, 1], ["keyeq", "$20", "$21"], ["keyser", "$20", 2],
+                      ["keyprecompute", "$20", 0], ["keyeq", "$20", "$21"], ["scale", 2], ["eq", 2, 3], ["eq", 1, 2], ["raw", 2], ["pickle", 3],
+                      ["eq", "$30", 1], ["eq", "$30", 3], ["copy", 2], ["eq", "$33", 3]]))
+        # -- equal-but-distinct curve objects (without the cofactor / a pickled copy) holding the same points
+        init = [["J", G[0], G[1], 1, n, 1], ["J", Pj[0], Pj[1], 2, n, 0], ["A", Q[0], Q[1], n],
+                ["J", G[0], G[1], 1, n, 1, "h0"], ["J", Pj[0], Pj[1], 2, n, 0, "h0"], ["A", Q[0], Q[1], n, "h0"], ["J", P[0], P[1], 1, None, 0, "hp"],
+                ["A", P[0], P[1], None, "hp"]]
+        H = lambda ops: resolve({"curve": [p, a, b], "named": None, "n": n, "init": init, "ops": ops})   # noqa
+        out.append(H([["eq", 0, 3], ["eq", 3, 0], ["eq", 1, 4], ["eq", 2, 5], ["eq", 5, 2], ["eq", 1, 6], ["eq", 7, 4], ["eq", 4, 7], ["eq", 1, 5],
+                      ["add", 1, 4], ["add", 4, 1], ["add", 2, 5], ["add", 5, 2], ["add", 2, 4], ["add", 5, 1], ["add", 6, 4], ["add", 7, 5], ["add", 0, 3],
+                      ["muladd", 0, 2, 4, 3], ["muladd", 4, 2, 0, 3], ["muladd", 3, 5, 2, 7], ["mul", 3, 5], ["mul", 0, 5], ["eq", "$21", "$22"]]))
+        out.append(H([["mkkey", 0, 1], ["mkkey", 3, 4], ["keyeq", "$0", "$1"], ["keyeq", "$1", "$0"], ["mkkey", 0, 4], ["mkkey", 3, 1], ["keyeq", "$4", "$5"],
+                      ["keyeq", "$0", "$4"], ["keyverify", "$1", 5, 3, 4], ["keyverify", "$0", 5, 3, 4], ["keyprecompute", "$1", 1], ["keyeq", "$0", "$1"],
+                      ["keyprecompute", "$0", 0], ["keyeq", "$1", "$0"], ["mkskey", 3, 4], ["mkskey", 0, 4], ["skvk", "$14"], ["skvk", "$15"],
+                      ["keyeq", "$16", "$17"], ["keyeq", "$16", "$0"], ["pickle", "$1"], ["keyeq", "$20", "$0"], ["keypoint", "$20"], ["eq", "$22", 1],
+                      ["add", "$22", 1]]))
     # curves with a point T of order 2 (y = 0): what the unchanged code gets RIGHT there must stay right (legacy T + T is
     # INFINITY, T == T, -T == T, T + Q and Q + T for legacy Q), next to what K1 describes (anything through PointJacobi, legacy
     # double / multiples).  Each step is a history of its own so that every one is judged.
